@@ -1,6 +1,6 @@
 #!/bin/bash
 # usage: seedtest.sh <patch.diff> <funcs-or-@property>   applies the patch to /repo, runs govc, restores
-export GOFLAGS=-mod=mod GOPROXY=off GOSUMDB=off GOTOOLCHAIN=local
+export GOFLAGS=-mod=mod GOPROXY=off GOSUMDB=off GOTOOLCHAIN=local GOVC_NO_EVIDENCE=1
 cd /repo || exit 2
 git apply --check "$1" || { echo "PATCH DOES NOT APPLY"; exit 2; }
 git apply "$1"
